@@ -210,6 +210,43 @@ size_t mtAtomicCmpSwap(
 	size_t swap		/*!< [in] новое значение */
 );
 
+#ifdef BEE2_VERIF
+/*!
+*******************************************************************************
+\file mt.h
+\section mt-verif Verification points (guard BEE2_VERIF)
+
+VERIF_POINT(id, obj) calls the function *mtVerifPoint if a verification
+harness has installed one. The pointer is null by default, then a point does
+nothing; without BEE2_VERIF the macros expand to nothing.
+
+VERIF_POINT_PRE / VERIF_POINT_ELSE are the forms for places where a statement
+cannot be inserted: a prefix of the following `if` statement and an `else`
+branch of the preceding one.
+*******************************************************************************
+*/
+typedef void (*mt_verif_point_i)(int id, const void* obj);
+extern mt_verif_point_i mtVerifPoint;
+
+#define VERIF_POINT(id, obj)\
+	((void)(mtVerifPoint ? (mtVerifPoint((id), (obj)), 0) : 0))
+#define VERIF_POINT_PRE(id, obj)\
+	if (VERIF_POINT(id, obj), 0) ; else
+#define VERIF_POINT_ELSE(id, obj)\
+	else VERIF_POINT(id, obj);
+
+#define VP_ONCE_CAS_BEFORE	1	/* obj: the trigger (size_t*) */
+#define VP_ONCE_CAS_AFTER	2	/* obj: the value returned by the CAS (size_t*) */
+#define VP_ONCE_PUB_BEFORE	3	/* obj: the trigger; fn() has returned */
+#define VP_ONCE_PUB_AFTER	4	/* obj: the trigger; it has been published (passed by every caller) */
+#define VP_RNG_LOCKED		5	/* obj: name of the rng function (char*) */
+#define VP_RNG_UNLOCKING	6	/* obj: name of the rng function (char*) */
+#else
+#define VERIF_POINT(id, obj) ((void)0)
+#define VERIF_POINT_PRE(id, obj)
+#define VERIF_POINT_ELSE(id, obj)
+#endif /* BEE2_VERIF */
+
 #ifdef __cplusplus
 } /* extern "C" */
 #endif
